@@ -127,6 +127,38 @@ func cleanupHome() {
 	}
 }
 
+// simCtx is a context whose cancellation is an event on the simulated schedule: it is done
+// from its fireAt-th poll (Done or Err call) on; fireAt < 0 never fires.
+type simCtx struct {
+	polls  int
+	fireAt int
+	ch     chan struct{}
+	fired  bool
+}
+
+func newSimCtx(fireAt int) *simCtx { return &simCtx{fireAt: fireAt, ch: make(chan struct{})} }
+
+func (c *simCtx) poll() {
+	if !c.fired && c.fireAt >= 0 && c.polls >= c.fireAt {
+		c.fired = true
+		close(c.ch)
+	}
+	c.polls++
+}
+func (c *simCtx) Deadline() (time.Time, bool) { return time.Time{}, false }
+func (c *simCtx) Done() <-chan struct{}       { c.poll(); return c.ch }
+func (c *simCtx) Err() error {
+	c.poll()
+	if c.fired {
+		return context.Canceled
+	}
+	return nil
+}
+func (c *simCtx) Value(any) any { return nil }
+
+// genCtx is the context of the next generateIn call (nil: context.Background()).
+var genCtx context.Context
+
 func generateIn(p *poolEntry, st *zzsim.State, keep bool, env envChoice, overlay bool) (*recWriter, error) {
 	w := &recWriter{}
 	if keep {
@@ -178,7 +210,11 @@ func generateIn(p *poolEntry, st *zzsim.State, keep bool, env envChoice, overlay
 		opts.IncludeDirs = []string{filepath.Join(scratchHome, "overlay")}
 	}
 	zzsim.Install(st)
-	_, err := gen.GenerateFile(context.Background(), p.Path, w, opts)
+	ctx := context.Background()
+	if genCtx != nil {
+		ctx, genCtx = genCtx, nil
+	}
+	_, err := gen.GenerateFile(ctx, p.Path, w, opts)
 	zzsim.Install(nil)
 	for i := len(undo) - 1; i >= 0; i-- {
 		undo[i]()
@@ -230,8 +266,15 @@ type stepDesc struct {
 func (engine) Run(src *sim.Src, log *sim.Log, res *sim.Result) {
 	// history: a sequence of generations in this process
 	n := 1 + src.Pick(50, 25, 12, 8, 5)
-	var light, heavy []int
+	var light, heavy, broken []int
 	for i, p := range cfg.Pool {
+		if strings.HasPrefix(p.ID, "broken/") {
+			// grammars whose generation fails on purpose: never compared, only run as history
+			if r := cfg.Refs[p.ID]; r != nil && r.Err != "" {
+				broken = append(broken, i)
+			}
+			continue
+		}
 		if r := cfg.Refs[p.ID]; r == nil || r.Err != "" {
 			continue
 		}
@@ -456,8 +499,55 @@ func (engine) Run(src *sim.Src, log *sim.Log, res *sim.Result) {
 			}
 		}
 
+		// a generation that fails half-way (an error raised while templates and semantic
+		// actions are rendered) right before this one: `textmapper generate a.tm b.tm`
+		// carries on after an error, so whatever the failure left behind is history
+		if len(broken) > 0 && src.Chance(1, 8) {
+			bi := broken[src.Draw(len(broken))]
+			for _, j := range broken {
+				if cfg.Pool[j].Lang == p.Lang && src.Chance(2, 3) {
+					bi = j
+					break
+				}
+			}
+			bst := &zzsim.State{Epoch: st.Epoch, Policies: st.Policies, Default: st.Default}
+			_, berr := generateIn(&cfg.Pool[bi], bst, false, env, false)
+			log.Printf("step %d: failing generation of %s first, err=%q", s, cfg.Pool[bi].ID, errText(berr))
+			if berr != nil {
+				res.Probe("failed-generation-in-history")
+				res.Fault("earlier-generation-failed")
+			}
+		}
+		// the caller's context as an event on the schedule: cancelled from its k-th poll on.
+		// A cancelled generation may fail; one that reports success wrote the reference files.
+		var sctx *simCtx
+		if !overlay && src.Chance(1, 6) {
+			sctx = newSimCtx([]int{0, 0, 1, 2, 3, 5, 8, 20, 100, 1000}[src.Draw(10)])
+			genCtx = sctx
+		}
 		w, err := generateIn(p, st, p.Committed, env, overlay)
 		res.Steps++
+		if sctx != nil {
+			res.Fault("context-cancelled-at-poll")
+			if sctx.fired {
+				res.Probe("ctx:fired")
+			}
+			log.Printf("step %d: context cancelled from poll %d on: polls=%d fired=%v err=%q", s, sctx.fireAt, sctx.polls, sctx.fired, errText(err))
+			if sctx.fired && err != nil {
+				// the admissible outcome of a cancelled generation; nothing to compare
+				res.Probe("ctx:generation-failed-after-cancel")
+				continue
+			}
+			if sctx.fired {
+				res.Probe("ctx:generation-succeeded-despite-cancel")
+				if ok, first := sameFiles(ref.Files, w.files); !ok {
+					res.Fail("C18.cancellation", p.ID+":"+first,
+						"grammar %s: the caller's context was cancelled from its poll %d on (%d polls in all); the generation reported success but its files differ from the reference (first differing file %q, %d files against %d): what is written depends on when the context is cancelled",
+						p.ID, sctx.fireAt, sctx.polls, first, len(w.files), len(ref.Files))
+					break
+				}
+			}
+		}
 		// probes: per-site reach
 		for site, ss := range st.Stats {
 			res.ProbeN("site-exec:"+site, ss.Execs)
